@@ -57,7 +57,7 @@ def handleIds (toks : List String) : String :=
       else match t.splitOn ":" with
         | ["A", cs] =>
           (match (if cs == "" then some [] else (cs.splitOn ",").mapM parseCall) with
-           | some batch => (match step s (.admit batch) with | some s' => go s' out r | none => go s out r)
+           | some batch => (match step s (.admitB batch) with | some s' => go s' out r | none => go s out r)
            | none => "bad-op")
         | ["D", us] =>
           (match (if us == "" then some [] else (us.splitOn ",").mapM (·.toNat?)) with
